@@ -797,6 +797,11 @@ class Verifier:
                 raise ContractError("bind target %s" % target)
         if c.setup_code:
             SETUP_FUNCS[c.setup_code](self, ip, env)
+        # extensionality between the byte-string inputs (keeps counter-models faithful)
+        bs = [v.t for v in env.values() if isinstance(v, SBytes)]
+        for i in range(len(bs)):
+            for j in range(i + 1, len(bs)):
+                sym.beq(bs[i], bs[j])
         return env
 
     def check_exit(self, ip, rep, c, finfo, pre_env, outcome):
